@@ -4,5 +4,8 @@ CONSTANTS MaxDepth = 3
   StoreByCopy = TRUE
   TailKeepsSets = TRUE
   SplitContinues = TRUE
+  SkipEmpty = TRUE
+  SplitCachesExport = FALSE
+  SrcFRepass = TRUE
 INVARIANT Emitted
 CHECK_DEADLOCK FALSE
